@@ -209,8 +209,8 @@ pub fn run(ctx: &Ctx) -> Report {
         "parse_document over grammar-generated inputs (biased to stray/repeated html/head/body/frameset/noframes tags, templates left open, head-only elements after </head>, content after </body>/</html>, inputs truncated at a random point so that EOF arrives in every insertion mode), random chunkings, scripting on/off, into ModelDom and RcDom. Oracle: validity predicate on the final tree, both directions: document children = comments* doctype? comments* html comments*; exactly one element child, HTML html; its element children are head then body, or head then frameset then zero or more noframes; no text under the document, only whitespace text under html, no empty text, no adjacent text siblings, only elements / template contents / the document have children, template contents only on HTML template. Non-trivial: frameset document, template open at EOF, head-only element after </head>, repeated html/body start tag, or content after </body>/</html>; distinct by case hash.",
     );
     rep.assume("'frameset optionally followed by noframes' is read as zero or more noframes elements: the standard's after-frameset mode inserts every <noframes> it sees, so a literal 'at most one' would contradict the WHATWG algorithm (C02)");
-    report_known(ctx, &mut rep, &|v| replay(ctx, v));
-    run_regressions(ctx, &mut rep, &|v| replay(ctx, v));
+    report_known(ctx, &mut rep, &|v| replay(&ctx.strict_clone(), v));
+    run_regressions(ctx, &mut rep, &|v| replay(&ctx.strict_clone(), v));
     let out = run_random(ctx.seed, ctx.tier.pick(200_000, 10_000_000), 1500, decode, check);
     rep.absorb(out);
     for l in [
